@@ -23,6 +23,11 @@ KNOWN_CAUSES = {
     "enum-unsigned-discr-high-bit": "c06:enum-unsigned-discr-high-bit",
     "vecdeque-cap-guard": "c06:vecdeque-cap-guard",
     "len-guard": "c06:len-guard",
+    "array-type-name": "c06:array-type-name",
+    "btree-empty-not-interpreted": "c06:btree-empty-not-interpreted",
+    "slice-of-zst-panics": "c06:slice-of-zst-panics",
+    "cenum-u64-discr-above-i64": "c06:cenum-u64-discr-above-i64",
+    "enum-128bit-tag": "c06:enum-128bit-tag",
 }
 
 
@@ -111,8 +116,8 @@ def run(tier, seed):
     if tier == "thorough" and ok:
         ctx.coqchk()
     if ctx.harness_build():
-        # quick: the 6 coverage programs + 2 grammar programs; thorough: 60 programs, and the coverage programs again under the other toolchains
-        n = 8 if tier == "quick" else 60
+        # quick: the 6 coverage programs + 1 grammar program; thorough: 60 programs, and the coverage programs again under the other toolchains
+        n = 7 if tier == "quick" else 60
         e2e_leg(ctx, [seed, n, ctx.cases_dir, ctx.scratch])
         unit_leg(ctx, [seed, n, ctx.cases_dir, ctx.scratch])
         if tier == "thorough":
